@@ -64,6 +64,7 @@ Inductive prog : Type :=
 | Return (ok : bool)                             (* leave the enclosing Call with status ok (false = NULL / error code) *)
 | Call (name : N) (p : prog)                     (* procedure boundary *)
 | IfErr (p q : prog)                             (* p when the last completed Call returned an error *)
+| Forget                                         (* bookkeeping at the start of an API call: failure counter := 0, status := ok *)
 | Star (p : prog).                               (* p repeated an environment-chosen number of times *)
 
 Notation "p ;; q" := (Seq p q) (at level 61, right associativity).
@@ -202,6 +203,7 @@ Fixpoint run (o : oracle) (p : prog) (s : state) : state * bool :=
   | Call name p =>
       let (s1, _) := run o p (add_ev (upd_status s true) (EvCall name)) in (s1, false)
   | IfErr p q => if status s then run o q s else run o p s
+  | Forget => (upd_status (upd_nfail s 0) true, false)
   | Star p =>
       let j := nstar s in
       iter (reps o j) (run o p) (upd_nstar s (S j))
@@ -371,6 +373,7 @@ Fixpoint aexec (fuel : nat) (canfail : bool) (p : prog) (a : astate) : option le
       | Some L => Some (map (fun x => (fst x, false)) L)
       end
   | IfErr p q => if astatus a then aexec fuel canfail q a else aexec fuel canfail p a
+  | Forget => Some [(mkA (aslots a) (afams a) (aflags a) true false, false)]
   | Star p =>
       match star_fix fuel (aexec fuel canfail p) [a] with
       | None => None
@@ -395,12 +398,23 @@ Definition acheck (fuel : nat) (P : astate -> bool) (p : prog) (a : astate) : bo
   all_leaves P (aexec fuel true p a).
 
 (* reusability: from every leaf of [first] (any failures), running [again] without failures is accepted and every
-   leaf equals the single expected abstract state [expect] with success status *)
-Definition areusable (fuel : nat) (first again : prog) (a : astate) (expect : astate) : bool :=
+   leaf satisfies P *)
+Definition areusable (fuel : nat) (first again : prog) (a : astate) (P : astate -> bool) : bool :=
   match aexec fuel true first a with
   | None => false
-  | Some L => forallb (fun x => all_leaves (fun a' => astate_eqb a' expect) (aexec fuel false again (fst x))) L
+  | Some L => forallb (fun x => all_leaves P (aexec fuel false again (fst x))) L
   end.
+
+(* a set of abstract states closed under a program: every leaf from every member is a member again *)
+Definition closed_under (fuel : nat) (St : list astate) (p : prog) : bool :=
+  forallb (fun a => all_leaves (fun a' => amem a' St) (aexec fuel true p a)) St.
+(* ... and every leaf satisfies P *)
+Definition closed_with (fuel : nat) (St : list astate) (P : astate -> bool) (p : prog) : bool :=
+  forallb (fun a => all_leaves (fun a' => amem a' St && P a') (aexec fuel true p a)) St.
+
+(* the abstract states reachable from a by repeating p (None when the analysis rejects or runs out of fuel) *)
+Definition reach (fuel : nat) (p : prog) (a : astate) : option (list astate) :=
+  match star_fix fuel (aexec fuel true p) [a] with Some (St, _) => Some St | None => None end.
 
 (* ------------------------------------------------------------------ helpers for the correspondence runs *)
 Fixpoint nth_bool (l : list bool) (n : nat) : bool :=
